@@ -30,6 +30,7 @@ def run(rep, repo, tier):
             for stab in (True, False):
                 r = lpfacts.get_run(repo, pc, stab, crit)
                 check_run(rep, r, pc, stab, crit)
+                lpfacts.check_domains_fixed(rep, r, 'C05.R2', '[%s]' % cfgname(pc, stab, crit))
                 rep.count('specialisations')
     check_requires_twopl(rep, repo)
 
